@@ -43,6 +43,7 @@ func thisField(info *types.Info, e ast.Expr) *types.Var {
 type typeTables struct {
 	fields, deser, assigned, serialized, context, getters, setters map[string]bool
 	claimed                                                        map[string]bool // raw JSON keys
+	claimedVocab                                                   map[string]string // claimed name -> vocabulary URI whose alias prefixes the comparison ("" = compared plain)
 	unknownStored, unknownEmitted                                  bool
 	problems                                                       []string
 }
@@ -50,7 +51,7 @@ type typeTables struct {
 func extractTypeTables(M *GenModel, tm *TypeModel) *typeTables {
 	g := tm.G
 	info := g.Pkg.TypesInfo
-	tt := &typeTables{fields: map[string]bool{}, deser: map[string]bool{}, assigned: map[string]bool{}, serialized: map[string]bool{}, context: map[string]bool{}, getters: map[string]bool{}, setters: map[string]bool{}, claimed: map[string]bool{}}
+	tt := &typeTables{fields: map[string]bool{}, deser: map[string]bool{}, assigned: map[string]bool{}, serialized: map[string]bool{}, context: map[string]bool{}, getters: map[string]bool{}, setters: map[string]bool{}, claimed: map[string]bool{}, claimedVocab: map[string]string{}}
 	for f, pm := range tm.Fields {
 		tt.fields[pm.key()] = true
 		sn := g.Struct.Obj().Name()
@@ -135,18 +136,65 @@ func extractTypeTables(M *GenModel, tm *TypeModel) *typeTables {
 			if !ok || !isIdentNamed(rs.X, "m") {
 				return true
 			}
+			// key prefixes: <v> := ""; if a, ok := aliasMap["<uri>"]; ok && len(a) > 0 { <v> = a + ":" }
+			prefixURI := map[types.Object]string{}
+			ast.Inspect(deserFn.Body, func(m ast.Node) bool {
+				ifs, ok := m.(*ast.IfStmt)
+				if !ok || ifs.Init == nil {
+					return true
+				}
+				as, ok := ifs.Init.(*ast.AssignStmt)
+				if !ok || len(as.Rhs) != 1 || len(as.Lhs) != 2 {
+					return true
+				}
+				ix, ok := as.Rhs[0].(*ast.IndexExpr)
+				if !ok || !isIdentNamed(ix.X, "aliasMap") {
+					return true
+				}
+				uri, ok := strLit(info, ix.Index)
+				aid, ok2 := as.Lhs[0].(*ast.Ident)
+				if !ok || !ok2 {
+					return true
+				}
+				for _, st := range ifs.Body.List {
+					if a2, ok := st.(*ast.AssignStmt); ok && len(a2.Lhs) == 1 && len(a2.Rhs) == 1 {
+						if be, ok := a2.Rhs[0].(*ast.BinaryExpr); ok && be.Op == token.ADD && isIdentNamed(be.X, aid.Name) {
+							if sep, ok := strLit(info, be.Y); ok && sep == ":" {
+								if l, ok := a2.Lhs[0].(*ast.Ident); ok {
+									prefixURI[info.ObjectOf(l)] = uri
+								}
+							}
+						}
+					}
+				}
+				return true
+			})
+			claim := func(e ast.Expr) {
+				if s, ok := strLit(info, e); ok {
+					tt.claimed[s] = true
+					tt.claimedVocab[s] = ""
+					return
+				}
+				// <prefix> + "name"
+				if be, ok := e.(*ast.BinaryExpr); ok && be.Op == token.ADD {
+					if s, ok := strLit(info, be.Y); ok {
+						if id, ok := be.X.(*ast.Ident); ok {
+							if u, known := prefixURI[info.ObjectOf(id)]; known {
+								tt.claimed[s] = true
+								tt.claimedVocab[s] = u
+							}
+						}
+					}
+				}
+			}
 			ast.Inspect(rs.Body, func(m ast.Node) bool {
 				switch x := m.(type) {
 				case *ast.BinaryExpr:
 					if x.Op == token.EQL && isIdentNamed(x.X, "k") {
-						if s, ok := strLit(info, x.Y); ok {
-							tt.claimed[s] = true
-						}
+						claim(x.Y)
 					}
 					if x.Op == token.EQL && isIdentNamed(x.Y, "k") {
-						if s, ok := strLit(info, x.X); ok {
-							tt.claimed[s] = true
-						}
+						claim(x.X)
 					}
 				case *ast.SwitchStmt:
 					// switch k { case "a", "b": continue }
@@ -166,9 +214,7 @@ func extractTypeTables(M *GenModel, tm *TypeModel) *typeTables {
 								continue
 							}
 							for _, e := range cc.List {
-								if s, ok := strLit(info, e); ok {
-									tt.claimed[s] = true
-								}
+								claim(e)
 							}
 						}
 					}
@@ -474,6 +520,17 @@ func checkC12(res *Result) {
 			Verdict: map[bool]string{true: OK, false: VIOLATION}[len(missing) == 0 && len(extra) == 0],
 			Detail:  fmt.Sprintf("a property's name not claimed (would be duplicated into unknown): %v; claimed though no property reads it (silently dropped): %v", missing, extra)})
 		res.check(tt.unknownStored && tt.unknownEmitted, "C12-R1", fn, "-", "a member outside that set is kept in the unknown map and re-emitted", fmt.Sprintf("stored: %v, emitted: %v", tt.unknownStored, tt.unknownEmitted))
+		// a claim made with an alias prefix uses the alias of the property's own vocabulary
+		var wrongPrefix []string
+		for _, p := range O.PropsOf(g.Name) {
+			for _, nm := range []string{p.Name, p.Name + "Map"} {
+				if u, claimed := tt.claimedVocab[nm]; claimed && u != "" && normURI(u) != normURI(p.Vocab.ID) {
+					wrongPrefix = append(wrongPrefix, nm)
+				}
+			}
+		}
+		sort.Strings(wrongPrefix)
+		res.check(len(wrongPrefix) == 0, "C12-R1", fn, "-", "an aliased claim uses the alias of the property's own vocabulary", fmt.Sprintf("claimed under another vocabulary's alias: %v", wrongPrefix))
 	}
 	var names []string
 	for n := range O.Types {
